@@ -205,9 +205,11 @@ def _case_rw(rec, p):
     r = [rng.random() + 0.01 for _ in range(N)]
     starts.append([x / sum(r) for x in r])
     nsub = 0
-    for s0 in starts:
-        dinp = dict(inp, start=s0, time=p["T"])
-        ok, dens = _call(rec, fn, dinp, p, rw.random_walk_density, h, np.array(s0, dtype=float), p["T"])
+    # (vector, dtype): the one-hot start on node 0 is also given as an integer array, a density like any other
+    typed = [(s0, float) for s0 in starts] + [([1 if i == 0 else 0 for i in range(N)], int)]
+    for s0, dt in typed:
+        dinp = dict(inp, start=s0, dtype=dt.__name__, time=p["T"])
+        ok, dens = _call(rec, fn, dinp, p, rw.random_walk_density, h, np.array(s0, dtype=dt), p["T"])
         nsub += 1
         if not ok:
             continue
